@@ -251,6 +251,12 @@ func (m *JSONMarshaler) marshalMap(opts *protojson.MarshalOptions, protomap prot
 }
 
 func (m *JSONMarshaler) marshalJSON(value any, opts *protojson.MarshalOptions) ([]byte, error) {
+	// MarshalIndent puts every list element and map entry on its own line even with an empty indent,
+	// which breaks newline-delimited and SSE streams, so it must only be used when multiline output is requested.
+	if !opts.Multiline && opts.Indent == "" {
+		return json.Marshal(value)
+	}
+
 	return json.MarshalIndent(value, "", opts.Indent)
 }
 
